@@ -33,6 +33,12 @@
 (assert (=> (and (<= 0 i) (<= i 1024) (<= 0 b) (<= b 1048577)) (and (<= 0 (* i b)) (<= (* i b) (* 1024 1048577)))))
 (assert (not (=> (and (<= 0 i) (< i D) (<= 1 D) (<= D 1024) (<= 1 b) (<= b 1048576) (<= 0 c) (< c b))
                  (and (< (+ (* i b) c) (* D b)) (<= (* D b) 1099511627776)))))
+; @obligation L-cell-index cell (bx, by) of a bx_n x by_n distribution whose block [i0, i0 + 2*bx_n*by_n) lies inside sums_ (class invariant of the accumulator constructor): the pair index i0 + 2*(by*bx_n + bx) and its successor are inside sums_
+(declare-const bxn Int) (declare-const byn Int) (declare-const bx Int) (declare-const by Int) (declare-const i0 Int) (declare-const sn Int)
+(assert (= (* byn bxn) (+ (* by bxn) (* (- byn by) bxn))))
+(assert (=> (and (>= (- byn by) 1) (>= bxn 0)) (>= (* (- byn by) bxn) bxn)))
+(assert (not (=> (and (<= 0 bx) (< bx bxn) (<= 0 by) (< by byn) (<= 1 bxn) (<= bxn 1024) (<= 1 byn) (<= byn 1024) (<= 2 i0) (<= (+ i0 (* 2 (* bxn byn))) sn))
+                 (< (+ i0 (* 2 (+ (* by bxn) bx)) 1) sn))))
 ; @obligation L-fold-mul adding d once per call is multiplication: (i+1)*d = i*d + d (step of the ghost fold used for C10.total)
 (assert (not (= (* (+ i 1) d) (+ (* i d) d))))
 ; @obligation L-sanity_sat_expected the hypotheses are satisfiable
